@@ -473,6 +473,20 @@ def timers(cx):
     ok, _ = incr(th, "RaftCore.election_elapsed")
     ok2, _ = incr(th, "RaftCore.heartbeat_elapsed")
     cx.check(ok and ok2, "heartbeat:+1", "tick_heartbeat advances both counters by one")
+    # the heartbeat counter goes back to zero only where the beat is due (tick_heartbeat, or a helper only it calls) and on
+    # a role/term change: zeroing it anywhere else (on every broadcast, say) postpones the beat for as long as that path recurs
+    from .vote import reset_fns as _rfs
+    rkeys = {rf.key for rf, _ in _rfs(cx).values()}
+    nz = 0
+    for s in cx.prog.writes.get("RaftCore.heartbeat_elapsed", []):
+        if "stmt" not in s.data or write_value(cx, s) != ("int", 0):
+            continue
+        nz += 1
+        f = s.fn
+        okz = f.key in rkeys or f is th or any(w.fn is f for w in cx.prog.writes.get(STATE, [])) \
+            or (bool(callers_of(cx, f)) and all(c.fn is th or c.fn.key in rkeys for c in callers_of(cx, f)))
+        cx.check(okz, cx.site_key(s, "heartbeat:zero"), "heartbeat_elapsed restarts only when the beat is sent or the role changes (in %s)" % fn_name(f), s)
+    cx.check(nz >= 2, "heartbeat:zero:floor", "the sites restarting the heartbeat counter were found")
     selfs = self_step_templates(cx)
     def self_blocks(fn, ty):
         return {t.site.block for t in selfs if t.fn is fn and t.types() == {ty}}
@@ -900,6 +914,8 @@ def transitions(cx):
             cx.check(ok, "reset:" + fn_name(f), "on every role change each progress restarts in Probe, unpaused, with no pending snapshot, matched = 0 and the given next index",
                      s, shape=[{k2: show(v) for k2, v in st.items() if k2 != "*"} for _, st in fr])
             cx.check(any("Inflights::reset" in x for x in cx.prog.reachable_fns([sp])), "reset:window:" + fn_name(f), "and with an empty inflight window")
+            okr = bool(fr) and all(st.get("pending_request_snapshot") == ("int", 0) for _, st in fr)
+            cx.check(okr, "reset:request:" + fn_name(f), "and with the peer's recorded snapshot request forgotten (a request noted in one leadership must not be served in a later one)", s)
             a = call_args(cx, s)
             ok = match(("bin", "Add", alt(call("~RaftLog::last_index", ANY), ("int", 1)), alt(call("~RaftLog::last_index", ANY), ("int", 1))), a[1]) is not None
             cx.check(ok, "reset:next:" + fn_name(f), "the restart index is last_index + 1 (found %s)" % show(a[1]), s)
